@@ -106,6 +106,28 @@ def run_shard(args: Dict[str, Any]) -> Dict[str, Any]:
         stats.record(case, info)
 
     result: Dict[str, Any] = {'shard': shard, 'seed': seed, 'violation': None, 'error': None}
+    # 0. replay tier: committed regression cases (shrunk cases of earlier findings), bypassing Hypothesis
+    if shard == 0:
+        rdir = os.path.join(VERIF, 'regress', pid)
+        n_reg = 0
+        for fn in sorted(os.listdir(rdir)) if os.path.isdir(rdir) else []:
+            if not fn.endswith('.json'):
+                continue
+            with open(os.path.join(rdir, fn)) as f:
+                data = json.load(f)
+            case = data['case'] if isinstance(data, dict) and 'case' in data else data
+            try:
+                one(case)
+                n_reg += 1
+            except Violation as v:
+                result['violation'] = {'case': case, 'viol': v.to_json(), 'source': 'regress/' + fn}
+                result['stats'] = stats.dump()
+                return result
+            except Exception:
+                result['error'] = traceback.format_exc()
+                result['stats'] = stats.dump()
+                return result
+        result['regress_replayed'] = n_reg
     # 1. deterministic / exhaustive blocks
     try:
         if hasattr(mod, 'enumerate_cases'):
@@ -294,6 +316,7 @@ def main() -> int:
         'shards': nshards,
         'examples_per_shard': n_examples,
         'enumerated': sum(r.get('enumerated', 0) for r in results),
+        'regression_cases_replayed': sum(r.get('regress_replayed', 0) for r in results),
         'inconclusive_budget_shards': sum(1 for r in results if r.get('inconclusive_budget')),
     }
     # optional post block in the parent (e.g. atheris campaigns)
